@@ -298,8 +298,15 @@ def kind_texts(kind, root):
     if t == "device":
         return [enc_path(kind["path"], root)]
     if t == "relative":
-        return [bytes.fromhex(kind["target"])]
+        return [rel_target(kind, root)]
     return []
+
+
+def rel_target(kind, root):
+    """a relative link text; `target_sym` = a pool file addressed relatively to the cwd"""
+    if "target_sym" in kind:
+        return os.fsencode(os.path.relpath(enc_path(kind["target_sym"], root), os.fsencode(os.getcwd())))
+    return bytes.fromhex(kind["target"])
 
 
 def table_line(impl, case):
@@ -311,6 +318,8 @@ def table_line(impl, case):
         texts += kind_texts(k, root)
         if k["t"] in ("regular", "device"):
             k["path"] = enc_path(k["path"], root).hex()
+        if k["t"] == "relative":
+            k = {"t": "relative", "target": rel_target(k, root).hex()}
         fds.append({"n": d["n"], "kind": k, "pos": d["pos"], "flags": d["flags"], "tail": d.get("tail", ""),
                     "closes": d.get("closes")})
     files, others = impl.fs_view(texts)
@@ -573,6 +582,8 @@ def gen_kind(rng, allow_ambiguous=True):
     if r < 0.9:
         return {"t": "device", "path": rng.choice([A("/dev/null"), A("/"), A("/dev/zero"), P(b"dir"), P(b"fifo"),
                                                      A("/memfd:psv (deleted)"), P(b"dir (deleted)"), A("/dev/pts/9999 (deleted)")])}
+    if rng.random() < 0.3:
+        return {"t": "relative", "target_sym": P(rng.choice([b"f0", b"data.log"]))}
     return {"t": "relative", "target": rng.choice([b"net:[4026531840]", b"mnt:[4026531841]", b"f0", b"tmp/x", b"a (deleted)",
                                                    b" (deleted)", b"./f0", b"\xff\xfe"]).hex()}
 
@@ -646,7 +657,7 @@ def gen_raw(rng):
         name = str(names[i]).encode()
         r = rng.random()
         if r < 0.04:
-            name = rng.choice([b"abc", b"12x", b"0x10"])
+            name = rng.choice([b"abc", b"12x", b"0x10"]) + str(i).encode()
         link_r = rng.random()
         if link_r < 0.5:
             link = {"sym": P(rng.choice(POOL_FILES[:7]))}
